@@ -271,6 +271,9 @@ bool updateUnitMultiplier(const UnitsPtr &units, int direction, double &multipli
             }
         }
         multiplier += localMultiplier * direction;
+    } else if (isStandardUnit(units)) {
+        // A standard unit used directly (e.g., "gram" or "litre") carries its own multiplier.
+        multiplier += standardMultiplierList.at(units->name()) * direction;
     }
 
     return true;
